@@ -115,6 +115,12 @@ func main() {
 		for i := 0; i < nseeds; i++ {
 			seeds = append(seeds, vlib.Bytes(rng, 32))
 		}
+		// boundary seeds: the matrix expansion draws the candidate q itself (to be rejected) resp. q - 1 (to be kept)
+		for _, target := range []int64{mldsaref.Q, mldsaref.Q - 1} {
+			if bs := p.BoundarySeed(vlib.Bytes(rng, 32), target, 40000); bs != nil {
+				seeds = append(seeds, bs)
+			}
+		}
 		ctxs := [][]byte{nil}
 		if p.MLDSA {
 			ctxs = [][]byte{nil, []byte("c"), vlib.Bytes(rng, 255)}
